@@ -4,6 +4,8 @@
  * predecessor_cache, F's forwarder task); when a body finishes F pulls the next message from Q (try_get) and, when Q is empty, gives the
  * edge back (Q.register_successor(F): Q's forwarder task). Concrete operation list OPS:
  *   1 external try_put(v) to Q     2 / 3 a worker runs the oldest / newest spawned task    8 ... a solver-chosen one (oldest or newest)
+ *   12 recovery after op 5: wait_for_all (every pending task gets cancel()), then the real graph::reset() (default flags): Q's buffer and both nodes'
+ *      protocol state must be initial again, the edge back in push mode; messages not yet processed are discarded by design; then reuse
  *   5 graph cancelled (workers call cancel() from now on)      9 make_edge(Q, F) (scenarios with LATEEDGE: the edge is made while messages are already buffered)
  * Oracle: every message put to Q reaches F's body exactly once (no loss, no duplicate, payload intact), in put order when F is serial;
  * never more live body tasks / running bodies than CONC; every body output is offered exactly once to the sink; the edge is in exactly
@@ -36,11 +38,11 @@ static u8* typed_new(u64 n) { if (n == vp_queue_objsize() && !queue_given) { que
 static const int ops[] = { OPS };
 #define NOPS ((int)(sizeof ops / sizeof ops[0]))
 #define MAXM 6
-enum { ST_NONE = 0, ST_ACCEPTED, ST_RUNNING, ST_DONE };
+enum { ST_NONE = 0, ST_ACCEPTED, ST_RUNNING, ST_DONE, ST_DROPPED };
 static int msg_v[MAXM]; static int msg_st[MAXM]; static unsigned nmsg, off[MAXM];
 static unsigned outc, running, nbody, cancelled, in_task, fifo_next;
 static unsigned live_ext; static u8 owner_arena[TASKMAX];
-static unsigned have_edge;
+static unsigned have_edge, ndropped, fifo_reset;
 static unsigned pull_seen, back_seen;   /* vacuity guards: the edge was seen in pull mode / handed back to push mode afterwards */
 struct S_class_tbb__detail__d1__wait_tree_vertex_interface* _ZN3tbb6detail2r127get_thread_reference_vertexEPNS0_2d126wait_tree_vertex_interfaceE(struct S_class_tbb__detail__d1__wait_tree_vertex_interface* top) {
   if ((u8*)top != vp_graph_vertex()) return top;   /* (the sample task of vp_init_sample: second graph, not under test) */
@@ -58,6 +60,7 @@ u32 vp_body(u32 uv) {
   running++;
   VP_ASSERT(CONC == 0 || running + live_body_tasks() <= CONC, "running bodies + pending body tasks exceed the concurrency limit");
 #ifdef FIFO
+  if (fifo_reset) { fifo_reset = 0; for (fifo_next = 0; fifo_next < nmsg && msg_st[fifo_next] != ST_ACCEPTED; fifo_next++) ; }   /* first message put after the reset */
   VP_ASSERT((unsigned)k == fifo_next, "serial function_node behind a queue_node: bodies not started in put order"); fifo_next++;
 #endif
   VP_ASSERT(vp_graph_refs() == refs_expected() && vp_graph_refs() >= 1, "graph wait count wrong while a body runs");
@@ -95,7 +98,7 @@ static void settled(void) {
 }
 static void run(void) {
   fg_reset(); queue_given = 0;
-  nmsg = 0; running = nbody = cancelled = in_task = fifo_next = 0; live_ext = 0;
+  nmsg = 0; running = nbody = cancelled = in_task = fifo_next = 0; live_ext = 0; ndropped = fifo_reset = 0;
   for (unsigned i = 0; i < MAXM; i++) { msg_st[i] = ST_NONE; off[i] = 0; }
   for (unsigned i = 0; i < TASKMAX; i++) owner_arena[i] = 0xff;
   outc = 0x40000000u;   /* concrete: with a symbolic mask the solver has to re-derive (v ^ c) ^ c == v bit by bit inside every message identification */
@@ -118,6 +121,21 @@ static void run(void) {
     else if (op == 3) run_one(1);
     else if (op == 8) run_one(vp_nd_bool());
     else if (op == 5) cancelled = 1;
+    else if (op == 12) {
+      cancelled = 1;
+      for (int i = 0; i < BAGRUNS; i++) run_one(0);             /* wait_for_all: every pending task is cancelled */
+      VP_ASSERT(bag_n == 0, "VP bound: tasks still pending after BAGRUNS cancellations");
+      VP_ASSERT(vp_graph_refs() == 0, "graph wait count not 0 after every pending task was cancelled (wait_for_all would hang)");
+      unsigned ctx0 = n_ctx_reset;
+      vp_graph_reset(0);
+      VP_ASSERT(n_ctx_reset == ctx0 + 1 && vp_graph_active(), "graph::reset did not reset the context once / left the graph inactive");
+      VP_ASSERT(bag_n == 0 && vp_graph_refs() == 0, "reset() spawned a task / touched the wait count");
+      /* WB: every piece of per-node protocol state is back to its initial value, the edge is in push mode */
+      VP_ASSERT(vp_qsize() == 0 && vp_conc() == 0 && vp_q_fwd_busy() == 0 && vp_f_fwd_busy() == 0, "reset() left protocol state behind (buffered messages / concurrency count / forwarder_busy)");
+      VP_ASSERT(vp_q_nsucc() == have_edge && vp_f_npred() == 0, "reset() did not put the edge Q->F back into push mode");
+      for (unsigned k = 0; k < nmsg; k++) if (msg_st[k] == ST_ACCEPTED) { msg_st[k] = ST_DROPPED; ndropped++; }
+      cancelled = 0; fifo_reset = 1;
+    }
     else if (op == 9) { if (!have_edge) { vp_make_edge(); have_edge = 1; } }
     settled();
   }
@@ -126,11 +144,11 @@ static void run(void) {
   VP_ASSERT(vp_graph_refs() == 0, "graph wait count not back to 0 although nothing is pending");
   VP_ASSERT(n_alloc[0] == n_free, "a finished task was not deallocated / deallocated twice");
   if (!cancelled && have_edge) {
-    for (unsigned k = 0; k < nmsg; k++) VP_ASSERT(msg_st[k] == ST_DONE, "a message put to the queue_node was never processed by the function_node (lost / stuck at the edge)");
+    for (unsigned k = 0; k < nmsg; k++) VP_ASSERT(msg_st[k] == ST_DONE || msg_st[k] == ST_DROPPED, "a message put to the queue_node was never processed by the function_node (lost / stuck at the edge)");
     VP_ASSERT(vp_qsize() == 0, "queue_node not empty at quiescence");
     VP_ASSERT(CONC == 0 || vp_conc() == 0, "concurrency count not back to 0 at quiescence");
     VP_ASSERT(vp_q_fwd_busy() == 0 && vp_f_fwd_busy() == 0, "forwarder_busy left set with no forwarder task alive");
-    VP_ASSERT(nbody == nmsg, "body invocations != messages");
+    VP_ASSERT(nbody + ndropped == nmsg, "body invocations != messages");
   }
 }
 int main(void) { run();
